@@ -1,0 +1,11 @@
+//go:build verif
+
+// Contracts for package extract, checked by /verif (govc). Comment-only; compiled only under -tags verif.
+package extract
+
+//@ func Attestation
+//@   assigns nothing
+//@   ensures err == nil ==> result != nil
+
+//@ func Endorsement
+//@   assigns nothing
